@@ -668,6 +668,35 @@ def request_grid_wide(part, tier='quick'):
                                        "DeriveKey request %s/%s length=%d %s from a %d-byte base: stored %s, "
                                        "reference %s" % (method.name, h, length, ctx['params'], len(km),
                                                          (val or b'').hex()[:40], want.hex()[:40]), ctx)
+        # ---- C'. DeriveKey from TWO objects: the first is the keying object, a later secret data object
+        # supplies the derivation data when the request carries none -------------------------------
+        sec2_val = bytes(range(100, 130))
+        sec2 = w.do(V, W.p_register(W.pie_secret(sec2_val), MASK)).uid()
+        w.do(V, W.p_activate(sec2))
+        for (uid, km) in bases:
+            for method, h, ref in (
+                    (DM.HMAC, 'SHA_256', lambda km: R.hkdf('SHA_256', km, b'salt', sec2_val, 16)),
+                    (DM.HMAC, 'SHA_1', lambda km: R.hkdf('SHA_1', km, b'salt', sec2_val, 16)),
+                    (DM.NIST800_108_C, 'SHA_512', lambda km: R.kbkdf_counter('SHA_512', km, sec2_val, 16))):
+                params = W.cattrs.DerivationParameters(
+                    cryptographic_parameters=W.crypto_params(hashing_algorithm=HASH[h]),
+                    salt=b'salt' if method == DM.HMAC else None)
+                r = w.do(V, W.p_derive_key([uid, sec2], method, params=params,
+                                           attrs=W.sym_attrs(length=128, masks=[CUM.ENCRYPT])))
+                part.count('cases')
+                part.count('wide_requests')
+                part.counters.setdefault('_out', set()).add(('w-derive2', method.name, h, r.items[0].ok()))
+                if not r.items[0].ok():
+                    continue
+                part.count('wide_derive2_ok')
+                val = _key_material(w.do(V, W.p_get(r.uid())))
+                if val != ref(km):
+                    part.violation("wide-derive-two-objects|%s|%s" % (method.name, h),
+                                   "DeriveKey %s/%s from [%d-byte keying object, secret data as derivation "
+                                   "data]: stored %s, reference %s" % (
+                                       method.name, h, len(km), (val or b'').hex()[:40], ref(km).hex()[:40]),
+                                   {'grid': 'requests-wide', 'family': 'derive2', 'method': method.name,
+                                    'hash': h, 'keying_bytes': len(km)})
         # ---- D. key wrapping ----------------------------------------------------------------------
         for ksize in (16, 24, 32):
             kek = key_patterns(ksize)[1]
@@ -815,10 +844,11 @@ def run(tier, seed):
         rep.merge(part)
     n = rep.counters.get('cases', 0)
     wide = {k: rep.counters.get(k, 0) for k in ('wide_requests', 'wide_encrypt_ok', 'wide_derive_ok',
-                                                'wide_sign_ok', 'wide_register_refused')}
+                                                'wide_sign_ok', 'wide_register_refused', 'wide_derive2_ok')}
     if n < 10000 or distinct < 1000:
         rep.harness_error("vacuous: %d cases, %d outcome classes" % (n, distinct))
-    if wide['wide_encrypt_ok'] < 150 or wide['wide_derive_ok'] < 400 or wide['wide_sign_ok'] < 40:
+    if wide['wide_encrypt_ok'] < 150 or wide['wide_derive_ok'] < 400 or wide['wide_sign_ok'] < 40 or \
+            wide['wide_derive2_ok'] < 4:
         rep.harness_error("vacuous wide request grid: %s" % wide)
     return rep.finish(dict(
         evaluations=n, distinct_nontrivial=distinct,
